@@ -12,7 +12,7 @@ import (
 func vRefTemplate(x, y byte) (root string, body string, names []string) {
 	X := "@" + string([]byte{x})
 	Y := "@" + string([]byte{y})
-	switch zzverif.IntRange("position", 0, 15) {
+	switch zzverif.IntRange("position", 0, 17) {
 	case 0:
 		return `{"k": ` + X + `}`, `1`, []string{X}
 	case 1:
@@ -46,6 +46,10 @@ func vRefTemplate(x, y byte) (root string, body string, names []string) {
 		return `1 // {or: [{type: "integer", min: 0}, {type: "` + X + `", nullable: false}, "` + Y + `"]}`, `1`, []string{X, Y}
 	case 15: // a key shortcut whose name was already seen, with a reference below it
 		return `{"id": ` + X + `, ` + X + `: ` + Y + `}`, `"s"`, []string{X, Y}
+	case 16: // every reference of the list sits inside a rule set with further rules
+		return `1 // {or: [{type: "` + X + `", nullable: true}, {type: "integer", min: 0}]}`, `1`, []string{X}
+	case 17: // an object with allOf that is an ITEM of an array
+		return "[\n  { // {allOf: \"" + X + "\"}\n    \"own\": " + Y + "\n  }\n]", `{"v": 1}`, []string{X, Y}
 	default: // rule sets (unnamed types) in the root and in the registered types, all in files of the same name
 		return `1 // {or: [{type: "` + X + `"}, {type: "integer", min: 0}]}`, `1 // {or: [{type: "integer"}, {type: "string"}]}`, []string{X}
 	}
@@ -120,6 +124,16 @@ func VerifC05_References() {
 		}
 	}
 	err := root.Check()
+	// ... nor on whether the schema was compiled before the first call
+	late := New("doc", rootText)
+	for _, n := range []string{"@a", "@b", "@c"} {
+		if reg[n] {
+			_ = late.AddType(n, New("doc", body))
+		}
+	}
+	_ = late.Check()
+	used3, _ := late.UsedUserTypes()
+	zzverif.Assert(vSameStrings(used3, want), "UsedUserTypes() does not depend on an earlier Check()")
 	if len(missing) == 0 {
 		zzverif.Reach("all-registered")
 		zzverif.Assert(err == nil, "with every referenced type registered the schema is accepted")
